@@ -115,8 +115,12 @@ func (c Coin) Float64() (float64, error) {
 
 // MultCoin multiplies Coin c by b, returning an error if the values overflow
 func MultCoin(c, b Coin) (Coin, error) {
+	if c == 0 || b == 0 {
+		return 0, nil
+	}
 	a := c * b
-	if a != 0 && a/c != b {
+	// a wrapped product can be exactly 0 (2^32 * 2^32), so test the quotient, not a
+	if a/c != b {
 		return 0, ErrUint64MultOverflow
 	}
 	return a, nil
